@@ -758,7 +758,11 @@ func Delete(ctx context.Context, scope *ReferenceScope, query parser.DeleteQuery
 		if err = v.RestoreHeaderReferences(); err != nil {
 			return nil, nil, err
 		}
+	}
 
+	// The tables are stored only after every one of them has been prepared:
+	// an interruption or an error above leaves all of them as they were.
+	for k, v := range viewsToDelete {
 		if v.FileInfo.IsInMemoryTable() {
 			scope.ReplaceTemporaryTable(v)
 		} else if v.FileInfo.IsFile() {
